@@ -158,6 +158,16 @@ impl<'tcx> Cx<'tcx> {
         o.set("k", J::str("seq"));
         o.set("inner", self.ty_desc(inner, depth.saturating_sub(1)));
       }
+      ty::Alias(ty::AliasTy { kind: ty::Opaque { def_id }, args, .. }) => {
+        // `impl Trait` return type: reveal the hidden type (e.g. the closure a private fn returns)
+        let hidden = tcx.type_of(def_id).instantiate(tcx, args).skip_norm_wip();
+        if depth > 0 && !matches!(hidden.kind(), ty::Alias(..)) {
+          let mut h = self.ty_desc(hidden, depth - 1);
+          h.set("opaque", J::Bool(true));
+          return h;
+        }
+        o.set("k", J::str("alias"));
+      }
       ty::Alias(..) => {
         o.set("k", J::str("alias"));
       }
